@@ -469,7 +469,7 @@ class CodeBuilder:
                     if config.allow_deserialization_not_by_alias:
                         allowed_keys |= {f[0] for f in filtered_fields}
 
-                    allowed_keys_str = "'" + "', '".join(allowed_keys) + "'"
+                    allowed_keys_str = ", ".join(map(repr, allowed_keys))
 
                     self.add_line("d_keys = set(d.keys())")
                     self.add_line(
@@ -983,7 +983,7 @@ class CodeBuilder:
                             packer if packer != "value" else f"self.{fname}",
                         )
                     )
-                kwargs = ", ".join(f"'{k}': {v}" for k, v in kwargs_parts)
+                kwargs = ", ".join(f"{k!r}: {v}" for k, v in kwargs_parts)
                 kwargs = f"{{{kwargs}}}"
             post_serialize = self.get_declared_hook(__POST_SERIALIZE__)
             if self.encoder is not None:
@@ -1049,7 +1049,7 @@ class CodeBuilder:
     ) -> None:
         if by_alias_feature and alias is not None:
             with self.indent("if by_alias:"):
-                self.add_line(f"kwargs['{alias}'] = {packed_value}")
+                self.add_line(f"kwargs[{alias!r}] = {packed_value}")
             with self.indent("else:"):
                 self.add_line(f"kwargs['{fname}'] = {packed_value}")
         else:
@@ -1060,7 +1060,7 @@ class CodeBuilder:
                 fname_or_alias = alias
             else:
                 fname_or_alias = fname
-            self.add_line(f"kwargs['{fname_or_alias}'] = {packed_value}")
+            self.add_line(f"kwargs[{fname_or_alias!r}] = {packed_value}")
 
     def _add_pack_method_with_dialect_lines(self, method_name: str) -> None:
         packer_args = ", ".join(
@@ -1346,31 +1346,31 @@ class FieldUnpackerCodeBlockBuilder:
             and self.parent.get_config().allow_deserialization_not_by_alias
         ):
             if unpacked_value != "value":
-                self.add_line(f"value = d.get('{alias}', MISSING)")
+                self.add_line(f"value = d.get({alias!r}, MISSING)")
                 with self.indent("if value is MISSING:"):
                     self.add_line(f"value = d.get('{fname}', MISSING)")
                 packed_value = "value"
             elif has_default:
-                self.add_line(f"value = d.get('{alias}', MISSING)")
+                self.add_line(f"value = d.get({alias!r}, MISSING)")
                 with self.indent("if value is MISSING:"):
                     self.add_line(f"value = d.get('{fname}', MISSING)")
                 packed_value = "value"
             else:
-                self.add_line(f"__{fname} = d.get('{alias}', MISSING)")
+                self.add_line(f"__{fname} = d.get({alias!r}, MISSING)")
                 with self.indent(f"if __{fname} is MISSING:"):
                     self.add_line(f"__{fname} = d.get('{fname}', MISSING)")
                 packed_value = f"__{fname}"
                 unpacked_value = packed_value
         else:
             if unpacked_value != "value":
-                self.add_line(f"value = d.get('{alias or fname}', MISSING)")
+                self.add_line(f"value = d.get({(alias or fname)!r}, MISSING)")
                 packed_value = "value"
             elif has_default:
-                self.add_line(f"value = d.get('{alias or fname}', MISSING)")
+                self.add_line(f"value = d.get({(alias or fname)!r}, MISSING)")
                 packed_value = "value"
             else:
                 self.add_line(
-                    f"__{fname} = d.get('{alias or fname}', MISSING)"
+                    f"__{fname} = d.get({(alias or fname)!r}, MISSING)"
                 )
                 packed_value = f"__{fname}"
                 unpacked_value = packed_value
